@@ -595,7 +595,9 @@ def random_case(rng, tier):
 def const_case(rng, tier, s, form):
     """sizes taken from the numeric constants of the source (rtmon/codeconst.py).  For a constant the harness has not seen before, the same row lengths
     are built through EVERY constructor form (one case each, element types rotating); otherwise one random case with the forced size."""
-    if not gen.FORCED.get("novel"):
+    from ..codeconst import CAPACITY
+    if not gen.FORCED.get("novel") and not any(abs(s - c_) <= 1 for c_ in CAPACITY if c_ >= 32768):
+        # (the capacity boundaries of the 16-bit types are treated like constants never seen before: every constructor form)
         c = random_case(rng, tier)
         return c if gen.FORCED["used"] else None
     out = []
